@@ -20,7 +20,9 @@ import (
 	"sort"
 	"strings"
 
+	"github.com/getkin/kin-openapi/openapi3"
 	"github.com/vkd/goag"
+	"github.com/vkd/goag/generator"
 )
 
 func init() {
@@ -248,4 +250,24 @@ func firstDiff(a, b []byte) string {
 		}
 	}
 	return fmt.Sprintf("line count %d vs %d", len(la), len(lb))
+}
+
+// GenerateRaw pairs a fixed valid document with arbitrary spec-file bytes: goag's
+// Generate takes the raw bytes separately from the parsed document.
+func GenerateRaw(validSpec []byte, raw []byte, cfg Config, outDir string) (out Outcome) {
+	defer func() {
+		if r := recover(); r != nil {
+			out.Panic = fmt.Sprintf("%v\n%s", r, debug.Stack())
+		}
+	}()
+	sw, err := openapi3.NewSwaggerLoader().LoadSwaggerFromData(validSpec)
+	if err != nil {
+		out.Err = err
+		return out
+	}
+	var gcfg generator.Config
+	gcfg.Cors.Enable = cfg.Cors
+	g := goag.Generator{GenClient: cfg.Client, GenAPIHandler: !cfg.NoAPIHandler, DoNotEdit: cfg.DoNotEdit}
+	out.Err = g.Generate(sw, outDir, cfg.Pkg(), raw, cfg.ServedSpecName(), cfg.BasePath, gcfg)
+	return out
 }
